@@ -106,11 +106,13 @@ class DBusClientConnection (txdbus.protocol.BasicDBusProtocol):
         for cb in self._dcCallbacks:
             cb(self, reason)
 
-        for d, timeout in self._pendingCalls.values():
+        # An errback may issue a new call (a retry): walk the table as it was
+        # when the connection was lost, not the live dictionary.
+        pending, self._pendingCalls = self._pendingCalls, {}
+        for d, timeout in pending.values():
             if timeout:
                 timeout.cancel()
             d.errback(reason)
-        self._pendingCalls = {}
 
         self.objHandler.connectionLost(reason)
 
